@@ -252,6 +252,7 @@ namespace Pistache::Tcp
 
             auto& entry                       = wq.front();
             int flags                         = entry.flags;
+            Fd peerFd                         = entry.peerFd;
             BufferHolder& buffer              = entry.buffer;
             Async::Deferred<ssize_t> deferred = std::move(entry.deferred);
 
@@ -294,9 +295,12 @@ namespace Pistache::Tcp
                         // pop_front kills buffer - so we cannot continue loop or use buffer
                         // after this point
                         wq.pop_front();
-                        wq.push_front(WriteEntry(std::move(deferred), bufferHolder, flags));
+                        wq.push_front(WriteEntry(std::move(deferred), bufferHolder, peerFd, flags));
                         reactor()->modifyFd(key(), fd, NotifyOn::Read | NotifyOn::Write,
                                             Polling::Mode::Edge);
+                        // Wait for the socket to become writable: onReady() resumes
+                        // the drain; retrying here would spin on EAGAIN
+                        stop = true;
                     }
                     // EBADF can happen when the HTTP parser, in the case of
                     // an error, closes fd before the entire request is processed.
